@@ -1,7 +1,7 @@
 //! Orchestration of a C11 check: run the tiers on all cores, minimise and persist
 //! violations as replay files, honour the known-findings list, write the evidence.
 
-use crate::corpus::Corpus;
+use crate::corpus::{Backend, Corpus};
 use crate::tierl;
 use crate::tierp::{self, Ctx, Job, Perturb, RunResult, RunStats, Violation, WorkerDir};
 use crate::Paths;
@@ -494,6 +494,21 @@ pub fn check(paths: &Paths, tier: &str) -> i32 {
                     let leaves = g.leaves();
                     for leaf in &leaves {
                         todo.push(Job { extra_excl: vec![leaf.clone()], ..job.clone() });
+                    }
+                    // option variants: the documented qualified form of --custom-field, naming each custom
+                    // type of the description in turn (python), and a namespace (C++)
+                    if b == Backend::Python && e.opts_for(b).custom_field.is_empty() {
+                        let customs: Vec<&str> = e.text.lines().filter_map(|l| l.trim_start().strip_prefix("custom_field ")).filter_map(|r| r.split(|ch: char| !(ch.is_ascii_alphanumeric() || ch == '_')).next()).filter(|n| !n.is_empty()).collect();
+                        for cname in &customs {
+                            for leaf in &leaves {
+                                todo.push(Job { extra_excl: vec![leaf.clone()], extra_args: vec!["--custom-field".to_string(), format!("verif.custom.{cname}")], ..job.clone() });
+                            }
+                        }
+                    }
+                    if b == Backend::Cxx {
+                        for leaf in &leaves {
+                            todo.push(Job { extra_excl: vec![leaf.clone()], extra_args: vec!["--namespace".to_string(), "verif::ns".to_string()], ..job.clone() });
+                        }
                     }
                     // and, for every parent all of whose children are leaves, all its children at once
                     // (what changes for others when a declaration stops having children)
